@@ -239,7 +239,10 @@ func (l *Loader) updates() {
 			// notify that we are warmed, but one time only
 			warm.Do(func() { close(l.warm) })
 		case q := <-l.query:
-			go func() {
+			// hand the goroutine a snapshot of the current config.  closing over the loop variables would
+			// race with the update case above and could pair the filters of one config with the providers
+			// of another
+			go func(providers []tq.SecretProvider, prefixDeny, prefixAllow *prefixFilter) {
 				// prefixFilter will log to prom counters and also act as a quick fail for prefixes that do not pass
 				// muster.  this pevents unnecessary load on scanning SecretProviders
 				if prefixDeny.deny(q.remote) {
@@ -256,7 +259,7 @@ func (l *Loader) updates() {
 				q.cb <- secretProvider{secret: secret, handler: handler, err: err}
 				close(q.cb)
 				buildGet.Inc()
-			}()
+			}(providers, prefixDeny, prefixAllow)
 		}
 	}
 }
